@@ -41,6 +41,7 @@ def run(cx):
     evals = 0
     nevents = 0
     hung = []
+    ndead = 0
     for r_ in vlib.read_ndjson(rout):
         res = r_["res"]
         if res.get("k") == "crash":
@@ -52,6 +53,7 @@ def run(cx):
             continue
         if res.get("k") != "ok":
             cx.notes.append("run %s: driver result %s" % (r_["id"], str(res)[:150]))
+            ndead += 1
             continue
         if res.get("seq_errors"):
             raise vlib.Inconclusive("a driver program fails when evaluated alone: %s" % json.dumps(res["seq_errors"][:2])[:300])
@@ -62,6 +64,7 @@ def run(cx):
             cx.violation("a concurrent evaluation gave %r, alone it gives %r (program %d, %d goroutines)" % (
                 d["concurrent"][:120], d["sequential"][:120], d["program"], r_["g"]),
                 {"leg": "non-interference", "diff": d, "goroutines": r_["g"]})
+    cx.alive(ndead, len(runs), "concurrent evaluation runs")
     # a run that did not finish: every evaluation in it has a 20 s deadline of its own and the whole run is given
     # 180 s, so a run that hangs again when it is the only one on the machine has evaluations that block each other
     if hung:
